@@ -21,8 +21,13 @@ fn main() {
         for (i, p) in progs.iter().enumerate() {
             for &o in &opts {
                 for &g in &gcs {
+                    let _ = aelys_backend::verif::take_call_windows();
                     let r = run_program(p, o, g, budget, None);
                     println!("{}\t{}\t{}:{}\t{}\t{}\t{}\t{}", i, o, g.0, g.1, r.class, esc(&r.output), esc(&r.value), esc(&r.detail));
+                    // frame-pushing calls the compiler emitted, and those with a register in use above their window
+                    let (calls, bad) = aelys_backend::verif::take_call_windows();
+                    let bad: Vec<String> = bad.iter().map(|w| format!("{}:{}:base={}:nargs={}:in-use-above={:?}", w.op, w.function, w.base, w.nargs, w.in_use_above)).collect();
+                    println!("WIN\t{}\t{}\t{}\t{}", i, o, calls, esc(&bad.join(";")));
                 }
             }
         }
